@@ -1,4 +1,5 @@
 import LachesisVerif.Props.C06
+import LachesisVerif.Proofs.RefEquivL
 /-!
 # C03 — Cheater lists name exactly the visible forkers
 
@@ -16,6 +17,10 @@ fork visible in the ancestry of `a`; a validator that never created two differen
 same sequence number is never listed.
 Not part of this theorem (covered by correspondence with the reference): that the `a` handed to
 `applyAtropos` is the elected Atropos of the block, and the index → validator-ID map.
+Appended (`C03_reference_cheaters`): the executable reference `Spec/Lachesis.lean` (oracle of the
+`cons` stream) lists, in every block of a run of one epoch (no seals), exactly the model's cheater
+loop output for the block's Atropos — the Atropos of the rules (C10) — mapped through the
+reference's index → id table. Seals / several epochs are not covered.
 -/
 namespace C03
 open Model.Vec VecProofs
@@ -88,5 +93,39 @@ example : Honest C06.hist 1 ∧ Honest C06.hist 2 := by
   exact ⟨fun x y hx hy => h1 x hx y hy, fun x y hx hy => h2 x hx y hy⟩
 /-- hence they are never listed (instance of the theorem) -/
 example : 1 ∉ cheaters (run 3 C06.hist) 8 := by decide
+
+/-! ## The executable reference (oracle of the `cons` stream) -/
+section Reference
+open Spec.Lachesis RefEquiv
+
+/-- C03 for the executable reference. In a run of the reference (`RefEquiv.Run`: one epoch, no seals,
+    checked events) with fewer than 2^32 - nVals events, block `i` names the Atropos `a` of frame
+    `i + 1` of the rules, and its cheater list is the output of the model's cheater loop for `a`
+    (`cheaters (run nv hist) a`: the validators, in canonical order, with two different equal-seq
+    events among the ancestors-or-self of `a` — `C03_mem_cheaters`) mapped to validator ids. -/
+theorem C03_reference_cheaters {ep : Nat} {rvals : List (Nat × Nat)} {evs : List Ev} {s : Inst}
+    {out : List Inst.Block} (hrun : Run ep rvals evs s out) (hsz : s.nv + s.size < 4294967296) :
+    ∀ i (h : i < out.length), ∃ a, a < s.size ∧ (out[i]).atropos = (s.ev a).n ∧
+      (netOf s).IsAtropos (i + 1) a ∧
+      (out[i]).cheaters = (cheaters (run s.nv (histOf s)) a).map s.idOf ∧
+      (∀ c, c ∈ cheaters (run s.nv (histOf s)) a ↔ c < s.nv ∧ ForkSeen (histOf s) a c) := by
+  intro i h
+  have hv := (run_inv hrun).valid
+  obtain ⟨_, hb, _⟩ := reference_blocks hrun
+  obtain ⟨_, _, a, ha, h1, h2, h3, h4⟩ := hb i h
+  have hlen : s.nv + (histOf s).length < 4294967296 := by rw [length_histOf]; exact hsz
+  have ha' : a < (histOf s).length := by rw [length_histOf]; exact ha
+  refine ⟨a, ha, h1, h2, ?_, C03_mem_cheaters hv hlen ha'⟩
+  rw [h3, C03_cheaters_exact hv hlen ha']
+  congr 1
+  apply List.filter_congr
+  intro v _
+  rw [Bool.eq_iff_iff, h4 v]
+  exact (@decide_eq_true_iff _ (Classical.propDecidable _)).symm
+
+/-- non-vacuity: the run of `RefEquiv.exRun1` (one validator, one accepted event) -/
+example : ∃ s out, Run 1 exV1 [exE0] s out := exRun1
+
+end Reference
 
 end C03
